@@ -3,7 +3,7 @@ use super::*;
 use std::future::Future;
 use std::mem::ManuallyDrop;
 
-pub const N: usize = 5; // indexes 1..=N
+pub const N: usize = 5; // array capacity of the reference log; the per-harness bound is nb() <= N
 
 // ---------------------------------------------------------------------------------------------
 // model storage engine (disk side)
@@ -66,6 +66,14 @@ pub fn vec_exact<T>(n: usize, mut f: impl FnMut(usize) -> T) -> Vec<T> {
         _ => panic!("vec_exact: more than 5 elements"),
     }
 }
+/// Vec with ONE allocation of constant capacity `max` and symbolic length `n <= max` (a Vec whose allocation
+/// size is path-dependent makes every later access a multi-object pointer for CBMC).
+pub fn vec_sym<T>(max: usize, n: usize, f: impl FnMut(usize) -> T) -> Vec<T> {
+    let mut v = vec_exact(max, f);
+    assert!(n <= max);
+    v.truncate(n);
+    v
+}
 impl MLogStore {
     pub fn empty() -> Self {
         MLogStore {
@@ -125,36 +133,14 @@ impl LogStore for MLogStore {
 
 pub type Log = BufferedRaftLog<MT>;
 
-pub fn mk_log(store: MLogStore) -> (Arc<Log>, mpsc::UnboundedReceiver<IOTask>) {
+/// The log is kept BY VALUE (a typed stack object): a heap allocation is an untyped byte array for CBMC and every
+/// field access into it becomes a byte-level extract/update (measured: 10-20x more variables).
+pub fn mk_log(store: MLogStore) -> (Log, mpsc::UnboundedReceiver<IOTask>) {
     let st = Arc::new(MStore { log: Arc::new(store), meta: Arc::new(MMeta) });
     let cfg = PersistenceConfig { strategy: PersistenceStrategy::MemFirst, flush_policy: FlushPolicy::Batch { idle_flush_interval_ms: 10 } };
-    let (log, rx) = Log::new(1, cfg, st);
-    (Arc::new(log), rx)
+    *mpsc::IO_AUTO_ACK.m() = true;
+    Log::new(1, cfg, st)
 }
-
-/// Run `fut` to completion; whenever it is pending the harness plays the IO thread: it receives one queued IOTask
-/// and answers it through the REAL `handle_non_write_cmd`.
-pub fn drive<F: Future>(log: &Arc<Log>, rx: &mut mpsc::UnboundedReceiver<IOTask>, fut: F) -> F::Output {
-    let mut fut = std::pin::pin!(fut);
-    let mut pending_max = 0u64;
-    let mut rounds = 0;
-    loop {
-        if let Some(v) = poll_once(fut.as_mut()) {
-            return v;
-        }
-        rounds += 1;
-        assert!(rounds <= 3, "drive: operation did not finish after three IO-thread rounds");
-        match rx.try_recv() {
-            Ok(cmd) => {
-                let mut h = std::pin::pin!(Log::handle_non_write_cmd(cmd, log, &mut pending_max));
-                let r = poll_once(h.as_mut());
-                assert!(r.is_some(), "drive: IO handler pending");
-            }
-            Err(_) => panic!("drive: operation pending but no IO task queued"),
-        }
-    }
-}
-
 
 // ---------------------------------------------------------------------------------------------
 // reference: a plain indexed log (term per index, 0 = absent) + the last purge cutoff
@@ -287,12 +273,15 @@ pub struct Req {
 impl Req {
     pub fn entries(&self) -> Vec<Entry> {
         let r = *self;
-        vec_exact(r.n, |k| ent(r.prev_i + 1 + k as u64, r.terms[k]))
+        vec_sym(3, r.n, |k| ent(r.prev_i + 1 + k as u64, r.terms[k]))
     }
 }
 
-/// Raft's conflict-aware append on the plain log (Figure 2 of the Raft paper, plus d-engine's documented
-/// "prev (0,0) = start from scratch" rule).  Returns what the follower reports as its last matching id.
+/// Conflict-aware append on the plain log: Raft's Figure 2 (AppendEntries receiver rules 2-4) PLUS d-engine's documented
+/// rule "prev (0, 0) = start from scratch: reset, then append" -- C19 compares the buffered log with a plain log
+/// applying the SAME rules.  Whether that extra rule is safe is a different question: it is not, see the C05
+/// harness `c05_scratch_request_keeps_agreeing_entries_*` and DESIGN.md section 8.
+/// Returns what the follower reports as its last matching id.
 pub fn plain_foca(p: &mut Plain, r: &Req) -> Option<LogId> {
     let last_new = if r.n == 0 { None } else { Some(LogId { term: r.terms[r.n - 1], index: r.prev_i + r.n as u64 }) };
     if r.prev_i == 0 && r.prev_t == 0 {
@@ -330,7 +319,7 @@ pub fn plain_foca(p: &mut Plain, r: &Req) -> Option<LogId> {
 /// Inputs a Raft leader can send to a follower whose log is `p` (Log Matching: a request entry that agrees with
 /// the follower in (index, term) implies every earlier request entry agrees too; terms never decrease).
 pub fn req_is_raft_valid(p: &Plain, r: &Req) -> bool {
-    if r.n > 3 || r.prev_i as usize + r.n > N {
+    if r.n > 3 || r.prev_i > nb() as u64 || r.prev_i as usize + r.n > nb() {
         return false;
     }
     if r.prev_i == 0 && r.prev_t != 0 {
@@ -341,7 +330,7 @@ pub fn req_is_raft_valid(p: &Plain, r: &Req) -> bool {
     let mut k = 0;
     while k < 3 {
         if k < r.n {
-            if r.terms[k] == 0 || r.terms[k] < prev || r.terms[k] > TMAX {
+            if r.terms[k] == 0 || r.terms[k] < prev || r.terms[k] > tb() {
                 return false;
             }
             prev = r.terms[k];
@@ -358,7 +347,17 @@ pub fn req_is_raft_valid(p: &Plain, r: &Req) -> bool {
     }
     true
 }
-pub const TMAX: u64 = 4;
+pub const TMAX: u64 = 4; // capacity; the per-harness bound is tb() <= TMAX
+pub static NB: SCell<usize> = SCell::new(4);
+pub static TB: SCell<u64> = SCell::new(3);
+#[inline(always)]
+pub fn nb() -> usize {
+    *NB.r()
+}
+#[inline(always)]
+pub fn tb() -> u64 {
+    *TB.r()
+}
 
 pub fn any_req() -> Req {
     Req { prev_i: kani::any(), prev_t: kani::any(), n: kani::any(), terms: kani::any() }
@@ -372,13 +371,13 @@ pub fn compare(log: &Log, p: &Plain, tag: &'static str) {
     assert!(RaftLogQ::is_empty(log) == (p.last() == 0), "C19:is_empty");
     assert!(log.last_entry() == p.entry(p.last()), "C19:last_entry");
     let mut i = 0u64;
-    while i <= (N as u64) + 1 {
+    while i <= (nb() as u64) + 1 {
         assert!(log.entry(i).ok().flatten() == p.entry(i), "C19:entry");
         assert!(log.entry_term(i) == p.entry_term(i), "C19:entry_term");
         i += 1;
     }
     let mut t = 0u64;
-    while t <= TMAX {
+    while t <= tb() {
         assert!(log.first_index_for_term(t) == p.first_for_term(t), "C19:first_index_for_term");
         assert!(log.last_index_for_term(t) == p.last_for_term(t), "C19:last_index_for_term");
         t += 1;
@@ -392,22 +391,40 @@ impl RaftLogQ {
     }
 }
 
-/// One symbolic operation applied to both logs. kind: 0 leader append, 1 conflict-aware append, 2 purge, 3 reset
-pub fn step(log: &Arc<Log>, rx: &mut mpsc::UnboundedReceiver<IOTask>, p: &mut Plain, kind: u8) {
-    match kind {
-        0 => {
-            // leader path: n <= 2 entries of one term at the next indexes
-            let n: usize = kani::any();
+// ---------------------------------------------------------------------------------------------
+// operation SHAPES (concrete per harness: kind + number of entries) with symbolic VALUES
+// ---------------------------------------------------------------------------------------------
+pub const A1: u8 = 1;
+pub const A2: u8 = 2;
+pub const F0: u8 = 10;
+pub const F1: u8 = 11;
+pub const F2: u8 = 12;
+pub const F3: u8 = 13;
+pub const PU: u8 = 20;
+pub const RS: u8 = 30;
+
+/// Apply one operation of the given concrete shape to both logs (values symbolic), then compare every query.
+#[inline(always)]
+pub fn apply(log: &Log, p: &mut Plain, shape: u8) {
+    apply_at(log, p, shape, None)
+}
+#[inline(always)]
+pub fn apply_at(log: &Log, p: &mut Plain, shape: u8, prev_fixed: Option<u64>) {
+    match shape {
+        A1 | A2 => {
+            let n = shape as usize;
             let term: u64 = kani::any();
-            kani::assume(n >= 1 && n <= 2 && term >= 1 && term <= TMAX);
-            let lid = p.last_log_id();
-            let (li, lt) = match lid {
+            kani::assume(term >= 1 && term <= tb());
+            let (li, lt) = match p.last_log_id() {
                 Some(l) => (l.index, l.term),
                 None => (0, 0),
             };
-            kani::assume(term >= lt && li as usize + n <= N);
-            let es = vec_exact(n, |k| ent(li + 1 + k as u64, term));
-            let r = drive(log, rx, log.append_entries(es));
+            kani::assume(term >= lt && li as usize + n <= nb());
+            let r = if n == 1 {
+                log.append_entries(vec_exact(1, |k| ent(li + 1 + k as u64, term)))
+            } else {
+                log.append_entries(vec_exact(2, |k| ent(li + 1 + k as u64, term)))
+            };
             assert!(r.is_ok(), "C19:append_ok");
             let mut k = 0;
             while k < n {
@@ -415,62 +432,205 @@ pub fn step(log: &Arc<Log>, rx: &mut mpsc::UnboundedReceiver<IOTask>, p: &mut Pl
                 k += 1;
             }
         }
-        1 => {
-            let r = any_req();
+        F0 | F1 | F2 | F3 => {
+            let n = (shape - F0) as usize;
+            let mut r = any_req();
+            r.n = n;
+            if let Some(pi) = prev_fixed {
+                r.prev_i = pi;
+            }
             kani::assume(req_is_raft_valid(p, &r));
-            let got = drive(log, rx, log.filter_out_conflicts_and_append(r.prev_i, r.prev_t, r.entries()));
+            let e = |k: usize| ent(r.prev_i + 1 + k as u64, r.terms[k]);
+            let got = match n {
+                0 => log.filter_out_conflicts_and_append(r.prev_i, r.prev_t, Vec::new()),
+                1 => log.filter_out_conflicts_and_append(r.prev_i, r.prev_t, vec_exact(1, e)),
+                2 => log.filter_out_conflicts_and_append(r.prev_i, r.prev_t, vec_exact(2, e)),
+                _ => log.filter_out_conflicts_and_append(r.prev_i, r.prev_t, vec_exact(3, e)),
+            };
             let want = plain_foca(p, &r);
             match got {
                 Ok(g) => assert!(g == want, "C19:conflict_append_result"),
                 Err(_) => panic!("C19:conflict_append_failed"),
             }
         }
-        2 => {
-            let cutoff = LogId { term: kani::any(), index: kani::any() };
-            kani::assume(cutoff.index >= 1 && cutoff.index as usize <= N && cutoff.term >= 1 && cutoff.term <= TMAX);
+        PU => {
+            let cutoff = LogId { term: kani::any(), index: match prev_fixed { Some(i) => i, None => kani::any() } };
+            kani::assume(cutoff.index >= 1 && cutoff.index as usize <= nb() && cutoff.term >= 1 && cutoff.term <= tb());
             // a purge cutoff is the id of an applied (committed) entry: if the entry is still in the log it has that term
             kani::assume(!p.has(cutoff.index) || p.t[cutoff.index as usize] == cutoff.term);
-            let r = drive(log, rx, log.purge_logs_up_to(cutoff));
+            let r = log.purge_logs_up_to(cutoff);
             assert!(r.is_ok(), "C19:purge_ok");
             p.purge_upto(cutoff);
         }
         _ => {
-            let r = drive(log, rx, log.reset());
+            let r = log.reset();
             assert!(r.is_ok(), "C19:reset_ok");
             p.truncate_from(0);
         }
     }
+    compare(log, p, "after op");
 }
 
-#[kani::proof]
-#[kani::unwind(2)]
-fn c19_two_ops_from_empty() {
-    let (log, mut rx) = mk_log(MLogStore::empty());
-    let mut p = Plain::new();
-    let k1: u8 = kani::any();
-    let k2: u8 = kani::any();
-    kani::assume(k1 <= 3 && k2 <= 3);
-    step(&log, &mut rx, &mut p, k1);
-    compare(&log, &p, "after1");
-    step(&log, &mut rx, &mut p, k2);
-    kani::cover!(k1 == 0 && k2 == 1 && p.last() >= 2, "append_then_conflict_append");
-    kani::cover!(k1 == 1 && k2 == 2 && p.last() > 0, "append_then_partial_purge");
-    compare(&log, &p, "after2");
-    std::mem::forget(log);
-    std::mem::forget(rx);
+pub fn fresh_b(nb: usize, tb: u64) -> (Log, mpsc::UnboundedReceiver<IOTask>, Plain) {
+    assert!(nb <= N && nb < CAP + 1 && tb <= TMAX);
+    *NB.m() = nb;
+    *TB.m() = tb;
+    fresh()
+}
+pub fn fresh() -> (Log, mpsc::UnboundedReceiver<IOTask>, Plain) {
+    let (log, rx) = mk_log(MLogStore::empty());
+    (log, rx, Plain::new())
 }
 
-#[kani::proof]
-#[kani::unwind(2)]
-fn s00_smoke() {
-    let (log, mut rx) = mk_log(MLogStore::empty());
-    let t: u64 = kani::any();
-    kani::assume(t >= 1 && t <= 3);
-    let r = drive(&log, &mut rx, log.append_entries(vec_exact(1, |_| ent(1, t))));
+include!("gen_seq.rs");
+
+/// concrete leader append (values fixed: folds completely during symbolic execution)
+pub fn c_append(log: &Log, p: &mut Plain, first: u64, terms: &[u64]) {
+    let r = match terms.len() {
+        1 => log.append_entries(vec_exact(1, |k| ent(first + k as u64, terms[k]))),
+        2 => log.append_entries(vec_exact(2, |k| ent(first + k as u64, terms[k]))),
+        _ => log.append_entries(vec_exact(3, |k| ent(first + k as u64, terms[k]))),
+    };
     assert!(r.is_ok());
-    kani::cover!(t == 2, "append_t2");
-    assert!(log.last_log_id() == Some(LogId { term: t, index: 1 }), "S00:last_log_id");
-    assert!(log.entry_term(1) == Some(t), "S00:entry_term");
+    let mut k = 0;
+    while k < terms.len() {
+        p.put(first + k as u64, terms[k]);
+        k += 1;
+    }
+}
+// ---------------------------------------------------------------------------------------------
+// C09: the leader's commit rule on the REAL log: calculate_majority_matched_index
+// ---------------------------------------------------------------------------------------------
+/// Log state constructed directly (entries 1..=3 with symbolic non-decreasing terms, max_index = 3): the function
+/// under test reads `last_entry_id()` and `entry(i)` only.
+fn c09_majority(k: usize) {
+    let (log, rx, _p) = fresh_b(4, 3);
+    let t: [u64; 3] = kani::any();
+    kani::assume(t[0] >= 1 && t[0] <= t[1] && t[1] <= t[2] && t[2] <= 3);
+    log.entries.insert(1, ent(1, t[0]));
+    log.entries.insert(2, ent(2, t[1]));
+    log.entries.insert(3, ent(3, t[2]));
+    log.min_index.store(1, Ordering::Release);
+    log.max_index.store(3, Ordering::Release);
+    let m: [u64; 4] = kani::any();
+    kani::assume(m[0] <= 3 && m[1] <= 3 && m[2] <= 3 && m[3] <= 3);
+    let cur: u64 = kani::any();
+    let commit: u64 = kani::any();
+    kani::assume(cur >= t[2] && cur <= 4 && commit <= 3);
+    // capacity k+1, length k: the push inside the function under test does not reallocate
+    let mut peers = vec_exact(k + 1, |i| if i < 4 { m[i] } else { 0 });
+    peers.truncate(k);
+    let got = log.calculate_majority_matched_index(cur, commit, peers);
+    // voters = k peers + the leader itself (its own last index is 3)
+    let total = k + 1;
+    kani::cover!(got.is_some(), "some_index_committable");
+    kani::cover!(got.is_none(), "nothing_committable");
+    if let Some(n) = got {
+        let mut have = if 3 >= n { 1 } else { 0 };
+        let mut i = 0;
+        while i < k {
+            if m[i] >= n {
+                have += 1;
+            }
+            i += 1;
+        }
+        assert!(have * 2 > total, "C09:commit_index_not_held_by_a_voter_majority");
+        assert!(n >= commit, "C09:commit_index_moved_backwards");
+        assert!(n >= 1 && n <= 3 && t[(n - 1) as usize] == cur, "C09:committed_entry_not_from_current_term");
+    }
+    // weak progress: everybody holds the whole log and its last entry is from the current term
+    let mut all = true;
+    let mut i = 0;
+    while i < k {
+        if m[i] != 3 {
+            all = false;
+        }
+        i += 1;
+    }
+    if all && t[2] == cur {
+        assert!(got == Some(3), "C09:fully_replicated_current_term_entry_not_committable");
+    }
     std::mem::forget(log);
     std::mem::forget(rx);
+}
+#[kani::proof]
+#[kani::unwind(2)]
+pub fn c09_majority_rule_1_peer() {
+    c09_majority(1)
+}
+#[kani::proof]
+#[kani::unwind(2)]
+pub fn c09_majority_rule_2_peers() {
+    c09_majority(2)
+}
+#[kani::proof]
+#[kani::unwind(2)]
+pub fn c09_majority_rule_3_peers() {
+    c09_majority(3)
+}
+#[kani::proof]
+#[kani::unwind(2)]
+pub fn c09_majority_rule_4_peers() {
+    c09_majority(4)
+}
+
+
+// ---------------------------------------------------------------------------------------------
+// C05: a conflict-aware append may delete entries only from the first CONFLICTING index on
+// ---------------------------------------------------------------------------------------------
+/// Follower log [1:t1, 2:t1, 3:t2] (concrete), any Raft-valid request with prev = (0, 0) and `n` entries.
+/// Restricted to the start-from-scratch branch (prev index/term concretely 0), the only branch of
+/// `filter_out_conflicts_and_append` that is decidable on a non-empty log (DESIGN 2c).
+fn c05_scratch(n: usize) {
+    let (log, rx, mut p) = fresh_b(4, 3);
+    c_append(&log, &mut p, 1, &[1, 1, 2]);
+    let mut r = any_req();
+    r.n = n;
+    r.prev_i = 0;
+    r.prev_t = 0;
+    kani::assume(req_is_raft_valid(&p, &r));
+    let before = p;
+    let e = |k: usize| ent(1 + k as u64, r.terms[k]);
+    let got = match n {
+        1 => log.filter_out_conflicts_and_append(0, 0, vec_exact(1, e)),
+        _ => log.filter_out_conflicts_and_append(0, 0, vec_exact(2, e)),
+    };
+    assert!(got.is_ok(), "C05:scratch_request_failed");
+    // does any request entry conflict with what the follower holds at that index?
+    let mut conflict = false;
+    let mut k = 0;
+    while k < n {
+        if before.t[k + 1] != 0 && before.t[k + 1] != r.terms[k] {
+            conflict = true;
+        }
+        k += 1;
+    }
+    kani::cover!(!conflict, "request_agrees_with_the_follower_log");
+    kani::cover!(conflict, "request_conflicts_with_the_follower_log");
+    // every request entry is in the log afterwards (either way)
+    let mut k = 0;
+    while k < n {
+        assert!(log.entry(1 + k as u64).ok().flatten() == Some(e(k)), "C05:request_entry_missing_after_append");
+        k += 1;
+    }
+    if !conflict {
+        // Raft (Figure 2, AppendEntries receiver rule 3): only a conflicting entry and what follows it may be deleted
+        let mut i = 1u64;
+        while i <= 3 {
+            assert!(log.entry(i).ok().flatten() == before.entry(i), "C05:start_from_scratch_request_discards_agreeing_entries");
+            i += 1;
+        }
+    }
+    std::mem::forget(log);
+    std::mem::forget(rx);
+}
+#[kani::proof]
+#[kani::unwind(2)]
+pub fn c05_scratch_request_keeps_agreeing_entries_1() {
+    c05_scratch(1)
+}
+#[kani::proof]
+#[kani::unwind(2)]
+pub fn c05_scratch_request_keeps_agreeing_entries_2() {
+    c05_scratch(2)
 }
